@@ -181,8 +181,8 @@ def hooks(it, frame, call, fname, args, kwargs, st):
         if isinstance(src, Sub) and isinstance(src.base, Src) and src.how == "item" and len(src.spec) == 1 and src.spec[0][0] == "x":
             # X[column label] of a nested frame: one column, all rows in order
             b = src.base
-            return Src("%s[%r]" % (b.name, src.spec[0][1]), "np2" if isinstance(rn, K) and rn.v is True else "frame2d",
-                       [b.shape[0], Lin.sym("m(%s)" % b.name)])
+            cname = "%s[%r]" % (b.name, src.spec[0][1])
+            return Src(cname, "np2" if isinstance(rn, K) and rn.v is True else "frame2d", [b.shape[0], Lin.sym("m(%s)" % cname)])
         if isinstance(src, Src):
             return Src(src.name, "np2" if isinstance(rn, K) and rn.v is True else "frame2d",
                        [src.shape[0], Lin.sym("m(%s)" % src.name)])
@@ -356,6 +356,26 @@ def r1_pad(ctx, repo):
             ctx.check(match(buf.fill, Opq("self.fill_value")), "R1", c + ":fill", "unfilled positions hold self.fill_value",
                       "unfilled positions hold %r, expected self.fill_value" % (buf.fill,), loc)
             check_copy_map(ctx, c + ":map", buf, series, L, loc)
+        if isinstance(buf, Buf):
+            d = buf.dtype
+            floats = (Opq("name:float"), K("float"), K("float64"), K("f8"), K("double"))
+            is_float = d in floats or (isinstance(d, Opq) and d.tag in ("attr:float", "attr:float64", "attr:float_", "attr:double")
+                                       and d.args and d.args[0] == Opq("global:numpy"))
+            verdict = True if is_float else None
+            why = "the padded array has dtype %r" % (d,)
+            if d is None:
+                verdict = False
+                why = ("np.full is called without dtype: the array takes the type of the fill value (default 0, an integer) and the "
+                       "series values are truncated when stored (series [0.5, 1.5], fill_value 0 -> [0, 1, 0, ...])")
+            elif not is_float and any(x == series for x in walk(d)):
+                verdict = False
+                why = ("the padded array takes its dtype from the series (%r): an integer series padded with fill_value=0.5 (or nan) "
+                       "gets the fill value truncated to 0 / raises" % (d,))
+            elif not is_float and any(x == Opq("self.fill_value") for x in walk(d)):
+                verdict = False
+                why = "the padded array takes its dtype from the fill value (%r): a float series padded with an integer fill is truncated" % (d,)
+            ctx.check(verdict, "R1", c + ":dtype", "the padded array is a float array whatever the series / fill value types are",
+                      why, loc, witness={"dtype": repr(d)})
     cell_state(ctx, c + ":cell-state", it, loc)
     # ---- fit
     for scen, val, want in (("None", K(None), sym("maxlen(X)")), ("given", sym("pad_length"), sym("pad_length"))):
@@ -552,6 +572,34 @@ def dedupe(events):
     return out
 
 
+def concrete(it, lin, env):
+    """Value of an affine form on a concrete instance (floor symbols are evaluated from their definitions), or None."""
+    total = lin.const
+    for s_, cf in lin.terms.items():
+        if s_ in env:
+            v = env[s_]
+        elif s_ in it.floordefs:
+            num, den = it.floordefs[s_]
+            nv = concrete(it, num, env)
+            if nv is None:
+                return None
+            v = nv // den
+        else:
+            return None
+        total += cf * v
+    return total
+
+
+def differ_witness(it, a, b):
+    """A small concrete configuration on which two affine forms differ (description) or None."""
+    for w in (1, 2, 3, 4, 5):
+        env = {"w": w, "n(X)": 2, "m(X)": 4, "c(X)": 1}
+        va, vb = concrete(it, a, env), concrete(it, b, env)
+        if va is not None and vb is not None and va != vb:
+            return "window_length=%d, n_timepoints=4: %s vs %s" % (w, va, vb)
+    return None
+
+
 def r1_sliding(ctx, repo):
     cls = repo.cls(SEGMENT + ":SlidingWindowSegmenter")
     mod = cls.module
@@ -590,6 +638,29 @@ def r1_sliding(ctx, repo):
     wl = as_listv(e.value)
     val = wl.elem
     win = val.arg(0, "data") if isinstance(val, CallV) and val.name == "pandas.Series" else val
+    whole_view = None
+    if isinstance(win, Sub) and isinstance(win.base, Strided) and len(win.base.shape) == 3 and isinstance(win.base.base, Buf) \
+            and len(win.spec) == 2 and win.spec[0] == ("i", ivar) and win.spec[1][0] == "i":
+        # one view (instances x windows x window) over the whole padded buffer: instance i of the view must start at row i
+        whole_view = win.base
+        pbuf = whole_view.base
+        steps = whole_view.steps
+        rowlen = pbuf.shape[1] if len(pbuf.shape) == 2 else None
+        verdict = None
+        detail = "row stride %r" % ((steps or [None])[0],)
+        if steps and steps[0] is not None and rowlen is not None:
+            verdict = steps[0] == rowlen
+            if not verdict:
+                wit = differ_witness(it, steps[0], rowlen)
+                verdict = False if wit else None
+                detail = ("instance i of the view starts %r items after instance i-1 but a padded row has %r items%s: windows of "
+                          "instance i >= 1 are read from shifted positions (partly from the neighbouring row)"
+                          % (steps[0], rowlen, (" (e.g. %s)" % wit) if wit else ""))
+        ctx.check(verdict, "R1", c + ":row-stride", "the instance stride of the view is the length of a padded row", detail, loc)
+        row = it.buf_row(pbuf, ivar)
+        inner_unit = None if not steps or None in steps[1:] else all(x == ONE for x in steps[1:])
+        if row is not None:
+            win = Sub(Strided(row, whole_view.shape[1:], inner_unit, (steps or [None, None, None])[1:]), [win.spec[1]])
     if not (wl.var is not None and not wl.filtered and isinstance(win, Sub) and isinstance(win.base, Strided)
             and len(win.spec) == 1 and win.spec[0][0] == "i"):
         ctx.undecided("R1", c + ":windows", "list element is not row j of a strided view: %r over %r" % (val, wl.it), loc)
@@ -639,7 +710,11 @@ def r1_sliding(ctx, repo):
                   "padded buffer has shape %r but each padded row has length %r" % (pb[0].shape, plen[0]), loc)
     else:
         ctx.undecided("R1", c + ":padded-shape", "padded buffer not identified", loc)
-    if len(sb) == 1:
+    if whole_view is not None:
+        ctx.check(whole_view.shape == [n] + sv_.shape, "R1", c + ":subsequence-shape",
+                  "the view is (n_instances, n_timepoints, window_length)",
+                  "the view has shape %r, expected (n_instances, n_timepoints, window_length)" % (whole_view.shape,), loc)
+    elif len(sb) == 1:
         ctx.check(sb[0].shape == [n] + sv_.shape, "R1", c + ":subsequence-shape",
                   "subsequence buffer is (n_instances, n_timepoints, window_length)",
                   "subsequence buffer has shape %r, each strided view %r" % (sb[0].shape, sv_.shape), loc)
@@ -810,6 +885,15 @@ def check_slices(ctx, construct, it, panel, time_axis, facts, loc, fitted_len=No
             ctx.violation("R1", construct, "the segments are collected with %s(): their order is not the order of the fitted intervals "
                           "(and of the column names)" % ev_.spec, loc)
             return
+    for ev_ in it.events:
+        if ev_.kind == "load" and lp[0] in ev_.loops and isinstance(ev_.value, Sub) and ev_.value.base == panel \
+                and len(ev_.value.spec) == len(panel.shape):
+            tsel = ev_.value.spec[time_axis]
+            if tsel[0] == "s" and (tsel[1] if tsel[1] is not None else ZERO, tsel[2]) != (lo, hi):
+                ctx.violation("R1", construct, "inside the interval loop the time axis is sliced again: a feature is computed on "
+                              "X[.., %r:%r] instead of the fitted interval [%r:%r) (the slice is applied twice)"
+                              % (tsel[1], tsel[2], lo, hi), loc, witness={"time_slice": [repr(tsel[1]), repr(tsel[2])]})
+                return
     for cv in it.calls:
         if lp[0] in cv.loops:
             for a in list(cv.args) + list(cv.kwargs.values()):
@@ -944,6 +1028,40 @@ def r1_intervals(ctx, repo):
             X3 = Src("X", "np3", [n, ONE, m])
             check_slices(ctx, tag + ".transform:slice", it, X3, 2, rets[0][0].facts, loct, fitted_len=m)
 
+
+
+def r1_paa_length(ctx, repo):
+    """PAA: the frames of a column are formed over all time points of *that* column's series: the inner loop runs over
+    range(series length of the array being processed) and reads series[n]."""
+    cls = repo.cls(PAA + ":PAA")
+    it = mk_interp(repo, no_inline=NO_INLINE + ("_check_parameters",))
+    sv = SelfV(cls)
+    sv.attrs.update(num_intervals=sym("k"))
+    traces, fst, k, fn = run_method(repo, it, sv, "transform", {"X": Src("X", "raw")})
+    loc = ctx.loc(k.module, fn)
+    c = "PAA.transform:series-length"
+    reads = dedupe([e for e in it.events if e.kind == "load" and isinstance(e.base, Sub) and isinstance(e.base.base, Src)
+                    and e.base.base.kind == "np2" and len(e.base.spec) == 1 and e.base.spec[0][0] == "i"
+                    and len(e.spec) == 1 and e.spec[0][0] == "i"])
+    if not reads:
+        ctx.undecided("R1", c, "no read series[n] of the 2-d column array inside a loop over the time points was found", loc)
+        return
+    for e in reads:
+        arr = e.base.base
+        tl = [l for l in e.loops if l.var is not None and l.var == e.spec[0][1]]
+        if len(tl) != 1 or not isinstance(tl[0].it, Rng):
+            ctx.undecided("R1", c, "the time index %r of the read is not a loop variable over a range" % (e.spec[0][1],), loc)
+            continue
+        want = Rng(ZERO, arr.shape[1])
+        got = tl[0].it
+        verdict = got == want
+        if not verdict and not (got.lo.is_const() and got.step == ONE and all(
+                x.startswith(("len(", "m(", "n(", "c(")) for x in got.hi.symbols())):
+            verdict = None
+        ctx.check(verdict, "R1", c, "the frames of a column are accumulated over range(length of that column's series)",
+                  "the time loop runs over %r but the array being processed (%s) has %r time points: with columns of different series "
+                  "length (or a length taken from another column) frames are cut short or read beyond the series"
+                  % (got, arr.name, arr.shape[1]), loc, witness={"loop": repr(got), "series_length": repr(arr.shape[1])})
 
 
 def r1_feature_columns(ctx, repo):
@@ -1876,6 +1994,93 @@ def row_layout(ctx, repo, cname, res):
                   "the transformed instance is nested from %r, expected the transpose of the transformer's result" % (shown,), loc)
 
 
+STATE_CLASSES = OPTION_CLASSES + [(REDUCE, "Tabularizer"), (COMPOSE, "ColumnConcatenator"), (COS, "CosineTransformer"),
+                                  (SUMMARIZE, "MeanTransformer"), (EXTRACT, "DerivativeSlopeTransformer")]
+
+
+def reachable_methods(repo, cls):
+    """(defining class, FunctionDef) of the methods reachable from the entry points through ``self.<method>`` references."""
+    seen, out = set(), []
+    work = [m for m in ENTRY if repo.lookup_method(cls, m)]
+    if any(isinstance(b, str) and not b.endswith("object") for b in cls.bases):
+        work += [m for m in cls.methods if m != "__init__"]
+    while work:
+        m = work.pop()
+        if m in seen or m == "__init__":
+            continue
+        seen.add(m)
+        hit = repo.lookup_method(cls, m)
+        if hit is None:
+            continue
+        out.append(hit)
+        for nd in ast.walk(hit[1]):
+            if isinstance(nd, ast.Attribute) and isinstance(nd.value, ast.Name) and nd.value.id == "self" \
+                    and isinstance(nd.ctx, ast.Load) and repo.lookup_method(cls, nd.attr) is not None:
+                work.append(nd.attr)
+    return out
+
+
+def mentions_attr(test, attr):
+    """Does a condition read ``self.<attr>`` (directly, or through hasattr / getattr with the literal name)?"""
+    for nd in ast.walk(test):
+        if isinstance(nd, ast.Attribute) and nd.attr == attr and isinstance(nd.value, ast.Name) and nd.value.id == "self":
+            return True
+        if isinstance(nd, ast.Call) and isinstance(nd.func, ast.Name) and nd.func.id in ("hasattr", "getattr") and len(nd.args) >= 2 \
+                and isinstance(nd.args[0], ast.Name) and nd.args[0].id == "self" and isinstance(nd.args[1], ast.Constant) \
+                and nd.args[1].value == attr:
+            return True
+    return False
+
+
+def r3_history(ctx, repo):
+    """(H1) State that fit / transform establish on ``self`` is re-established by every call: a store ``self.a = <computed>``
+    dominated by a test of ``self.a``'s own previous value (is None / hasattr / len unchanged ...) keeps what an earlier
+    call computed from other data or other parameters."""
+    done = set()
+    for rel, cname in STATE_CLASSES:
+        cls = repo.cls(rel + ":" + cname)
+        for k, fn in reachable_methods(repo, cls):
+            if id(fn) in done:
+                continue
+            done.add(id(fn))
+            memo = [dotted(d.func if isinstance(d, ast.Call) else d) for d in fn.decorator_list]
+            memo = [d for d in memo if d and d.split(".")[-1] in ("lru_cache", "cache", "cached_property", "memoize", "memoized")]
+            if memo:
+                ctx.violation("R3", "%s.%s:memoised" % (k.name, fn.name), "the method is memoised (%s): a later call with the same "
+                              "arguments after the instance's parameters / fitted state changed returns the stale result"
+                              % ", ".join(memo), ctx.loc(k.module, fn))
+            stores = []
+            for nd in ast.walk(fn):
+                if isinstance(nd, (ast.Assign, ast.AugAssign, ast.AnnAssign)):
+                    tgts = nd.targets if isinstance(nd, ast.Assign) else [nd.target]
+                    for t in tgts:
+                        for tt in ([t] if not isinstance(t, (ast.Tuple, ast.List)) else t.elts):
+                            if isinstance(tt, ast.Attribute) and isinstance(tt.value, ast.Name) and tt.value.id == "self":
+                                stores.append((tt.attr, nd))
+            if not stores:
+                continue
+            g = CFG(fn)
+            c0 = "%s.%s:first-call-only" % (k.name, fn.name)
+            bad = []
+            for attr, st_ in stores:
+                val = getattr(st_, "value", None)
+                trivial = val is None or isinstance(val, ast.Constant) or (isinstance(val, (ast.List, ast.Dict, ast.Tuple, ast.Set))
+                                                                           and not getattr(val, "elts", getattr(val, "keys", None)))
+                node = g.node_of(st_)
+                if node is None or trivial:
+                    continue
+                for test, branch in g.guards_of(node):
+                    if mentions_attr(test, attr):
+                        bad.append((attr, st_, test))
+                        break
+            for attr, st_, test in bad:
+                ctx.violation("R3", c0 + ":" + attr, "self.%s is (re)computed only when a test of its own previous value allows it (%s): "
+                              "call twice -- the second call, on other data or after set_params, keeps the value the first call computed"
+                              % (attr, astq.canon(test)[:120]), ctx.loc(k.module, st_), witness={"attribute": attr})
+            if not bad:
+                ctx.ok("R3", c0, "%d stores to self, none guarded by the attribute's own previous value" % len(stores), ctx.loc(k.module, fn))
+
+
 def r3_all(ctx, repo):
     X = Src("X", "raw")
     W = sym("w")
@@ -1922,12 +2127,14 @@ def run(ctx):
     r1_interpolate(ctx, repo)
     r1_intervals(ctx, repo)
     r1_feature_columns(ctx, repo)
+    r1_paa_length(ctx, repo)
     r2_imputer(ctx, repo)
     r2_acf(ctx, repo)
     r2_simple(ctx, repo)
     r2_segmenter_forwarding(ctx, repo)
     r2_options(ctx, repo)
     r3_all(ctx, repo)
-    ctx.floor("R1", 76)
+    r3_history(ctx, repo)
+    ctx.floor("R1", 80)
     ctx.floor("R2", 126)
-    ctx.floor("R3", 70)
+    ctx.floor("R3", 81)
